@@ -292,6 +292,18 @@ func (p *c05) RunCase(ctx *runner.Ctx) runner.CaseResult {
 		op = adapt.Op{Kind: adapt.OpPut, Table: spec.Name, Item: mk(th, tr, 7)}
 	case 1:
 		op = mon.SetUpdate(spec.Name, tkey, "w", val.Str("touched"))
+		// half of the updates CHANGE the attributes the condition looks at (a, v, g, s, flags, cfg): the condition
+		// is decided on the item as it is stored before the update
+		switch r.Intn(8) {
+		case 0:
+			op = mon.SetUpdate(spec.Name, tkey, "a", val.Str(mon.Pick(r, []string{"red", "blue", "green"})))
+		case 1:
+			op = mon.SetUpdate(spec.Name, tkey, "v", val.Num(fmt.Sprint(r.Intn(6))))
+		case 2:
+			op = mon.RemoveUpdate(spec.Name, tkey, mon.Pick(r, []string{"a", "v", "g", "s", "flags", "cfg"}))
+		case 3:
+			op = mon.AddUpdate(spec.Name, tkey, "v", val.Num(mon.Pick(r, []string{"1", "-2", "5"})))
+		}
 		op.RetCCF = adapter == "v2" && r.Intn(2) == 0 // only the SDK v2 adapter implements ReturnValuesOnConditionCheckFailure
 	default:
 		op = adapt.Op{Kind: adapt.OpDelete, Table: spec.Name, Key: tkey, RetOld: r.Intn(2) == 0}
